@@ -36,6 +36,16 @@ example : parse ⟨fun _ => 1, fun _ => 1, fun _ => 0, 1⟩
     some (.bin .and (.un .not (.isin (.un .neg (.col 0)) (.cons .null (.cons (.un .neg (.num 1)) .nil))))
       (.bin .gt (.bin .mod (.col 1) (.num 2)) (.num 2))) := by decide
 
+/-- why `C03_parse_render_nodes` needs its shape hypothesis (the typed constructors never build this):
+    `SQLOp.__sqlrepr__` leaves an operand alone when its text merely STARTS with `(`, so a one-item
+    list used as an arithmetic operand is read back as a parenthesised expression.  The same rule is
+    why `INSubquery` / `LIKE` nodes (outside the fragment) are not protected when their left operand's
+    text starts with `(`. -/
+example : parse ⟨fun _ => 1, fun _ => 1, fun _ => 0, 1⟩
+      (render "sqlite" false (.sqlop .add (.lcons (.int 1) .lnil) (.int 2))) = some (.bin .add (.num 1) (.num 2))
+    ∧ toT "sqlite" (.sqlop .add (.lcons (.int 1) .lnil) (.int 2)) = .bin .add (.cons (.num 1) .nil) (.num 2) := by
+  decide
+
 /-- why the parentheses matter (non-vacuity of "every table"): the same tokens WITHOUT them are read
     differently by two tables -/
 example : parse ⟨fun _ => 4, fun _ => 5, fun _ => 3, 4⟩ [.pre .not, .col 0, .op .eq, .num 1]
